@@ -499,7 +499,8 @@ impl<'a> Prog<'a> {
             return;
         }
         self.violations += 1;
-        let tail: Vec<&String> = self.trace.iter().rev().take(14).rev().collect();
+        let keep = if std::env::var_os("C14_FULL_TRACE").is_some() { usize::MAX } else { 14 }; // triage aid
+        let tail: Vec<&String> = self.trace.iter().rev().take(keep).rev().collect();
         let d = format!(
             "{} | policy {:?} | last ops: {:?}",
             detail, self.model.policy, tail
@@ -1259,11 +1260,16 @@ impl<'a> Prog<'a> {
         let opname = if cascading { "revoke_delegation_cascading" } else { "revoke_delegation" };
         self.r.count(&format!("op[{}]", opname), 1);
         let had_record = self.deleg.iter().any(|d| d.parent == parent && d.child == child);
+        // the records the vault itself reports as revoked (cascading form only)
+        let mut reported: Vec<(String, String)> = Vec::new();
         let ok = if cascading {
             let res = self.vault.revoke_delegation_cascading(&parent, &child);
             self.trace.push(format!("{}({}->{})={}", opname, parent, child, match &res { Ok(v) => format!("ok[{}]", v.len()), Err(e) => err_variant(e).to_string() }));
             match res {
-                Ok(_) => true,
+                Ok(v) => {
+                    reported = v.iter().map(|r| (r.parent.clone(), r.child.clone())).collect();
+                    true
+                }
                 Err(e) => {
                     self.check_err(opname, &e);
                     false
@@ -1280,10 +1286,24 @@ impl<'a> Prog<'a> {
                 }
             }
         };
-        if !ok || !had_record {
-            // nothing the contract obliges (a cascade from a pair without a record is not described)
+        if !ok {
             return;
         }
+        if !had_record {
+            // nothing the contract obliges (a cascade from a pair without a record is not
+            // described): what the vault says it revoked anyway is no longer a record of the
+            // model either - otherwise a later cascade would walk through records that do not
+            // exist any more - but the grants those records handed out stay live in the model
+            // (the model may only ever allow more than the vault, never less)
+            let before = self.deleg.len();
+            self.deleg.retain(|d| !reported.iter().any(|(p, c)| *p == d.parent && *c == d.child));
+            self.r.count("records_dropped_after_undescribed_cascade", (before - self.deleg.len()) as u64);
+            return;
+        }
+        let now = Instant::now();
+        // a record whose grants carry a TTL that has (or may have) run out may already have been
+        // swept by the vault; the cascade is then not obliged to pass through it
+        let maybe_swept = |d: &DRec, grants: &Vec<Grant>| d.grants.iter().any(|&gi| grants[gi].exp.map_or(false, |(lo, _)| lo < now + MARGIN));
         let mut gone: Vec<usize> = Vec::new(); // indexes into self.deleg
         for (k, d) in self.deleg.iter().enumerate() {
             if d.parent == parent && d.child == child {
@@ -1296,6 +1316,10 @@ impl<'a> Prog<'a> {
             while let Some(cur) = q.pop_front() {
                 for (k, d) in self.deleg.iter().enumerate() {
                     if d.parent == cur && !gone.contains(&k) {
+                        if maybe_swept(d, &self.model.grants) {
+                            self.r.count("cascade_stops_at_possibly_expired_record", 1);
+                            continue;
+                        }
                         gone.push(k);
                         if !reach.contains(&d.child) {
                             reach.push(d.child.clone());
@@ -1331,6 +1355,9 @@ impl<'a> Prog<'a> {
         for &k in gone.iter().rev() {
             self.deleg.remove(k);
         }
+        // records the vault reports beyond those (reached through a record the model did not walk
+        // through) are gone as records; their grants stay live in the model
+        self.deleg.retain(|d| !reported.iter().any(|(p, c)| *p == d.parent && *c == d.child));
         // grant indexes stay valid (grants are never removed from the model), record indexes were
         // only used above
         for (who, secs) in affected {
@@ -2071,7 +2098,7 @@ fn main() {
             "only-if direction only: a refusal the model would have allowed is counted as over_denials, never a violation".into(),
             format!("a TTL grant counts as possibly live until (return of the granting call + ttl + {} ms); decisions inside that window are don't-care", MARGIN.as_millis()),
             "required levels: read/get_version/batch_get/list/list_versions/current_version = Read, overwrite/rotate/rollback = Write, delete and grant* = Admin (as documented on Permission); revoke is executed and its effect modelled but its own authorisation is not judged (the statement is silent)".into(),
-            "revoke_delegation(parent, child) takes away what the current (latest) delegate(parent, child, ..) call handed out; revoke_delegation_cascading additionally does so for every delegation record of every agent reachable from the child through delegation records; grants from an earlier, replaced delegate call of the same pair and a cascade started at a pair without a record are not judged".into(),
+            "revoke_delegation(parent, child) takes away what the current (latest) delegate(parent, child, ..) call handed out; revoke_delegation_cascading additionally does so for every delegation record of every agent reachable from the child through delegation records whose TTL cannot have run out; grants from an earlier, replaced delegate call of the same pair and a cascade started at a pair without a record are not judged (records the vault reports as revoked by such a cascade are dropped from the model's record graph, the grants they handed out stay live in the model)".into(),
             "distinct name strings are distinct secrets / identities (the vault documents no normalisation): a grant on one name confers nothing on a near-duplicate".into(),
             "delegate is modelled by its documented contract: succeeds only if the parent holds at least the delegated level on every secret; the child then holds that level (with the TTL if given)".into(),
             "a group is an entity reached over directed MEMBER edges; edges of other types and MEMBER edges pointing at a secret node confer nothing; distance = MEMBER hops + 1, attenuated by the documented table, nothing at or beyond the horizon".into(),
